@@ -52,6 +52,10 @@ pub struct PipeCase {
     pub use_iter: bool,
     /// apply stdin to the left operand and stdout to the right operand before the root `|`
     pub config_on_operands: bool,
+    /// with config_on_operands and a root of the form `pipeline | exec`: set the
+    /// output on the left pipeline before the last command is appended
+    #[serde(default)]
+    pub stdout_on_left: bool,
     pub stdin: PIn,
     pub stdout: POut,
     pub stderr: PErr,
@@ -101,6 +105,7 @@ struct RootCfg {
     stdout: Option<Redirection>,
     stderr_to: Option<std::fs::File>,
     applied: bool,
+    stdout_on_left: bool,
 }
 
 /// Build the composition tree over stages [lo, hi) using the split choices.
@@ -133,6 +138,13 @@ fn build(execs: &mut Vec<Option<Exec>>, lo: usize, hi: usize, splits: &[u8], pos
             if is_root {
                 if let Some(c) = root_cfg.as_mut() {
                     a = apply_left(a, c);
+                    if c.stdout_on_left {
+                        // appending a command keeps the pipeline's configured output
+                        if let Some(r) = c.stdout.take() {
+                            a = a.stdout(r);
+                            c.applied = true;
+                        }
+                    }
                 }
             }
             Node::P(a | b)
@@ -243,6 +255,7 @@ pub fn check_case(ctx: &Ctx, case: &PipeCase, rep: &mut CaseReport) -> CaseResul
         stdout: mk_out(case.stdout),
         stderr_to: if want_stderr_to { Some(err_file.try_clone().unwrap()) } else { None },
         applied: false,
+        stdout_on_left: case.stdout_on_left,
     };
     let mut root_cfg = if on_operands { Some(full_cfg()) } else { None };
     let mut pipeline: Pipeline = if case.use_iter {
@@ -436,7 +449,7 @@ pub fn case_strategy() -> impl Strategy<Value = PipeCase> {
         prop::collection::vec(stage, 2..9),
         prop::collection::vec(any::<u8>(), 8),
         prop_oneof![5 => Just(false), 1 => Just(true)],
-        any::<bool>(),
+        (any::<bool>(), any::<bool>()),
         prop_oneof![Just(PIn::Inherit), Just(PIn::Pipe), Just(PIn::File), Just(PIn::Data)],
         prop_oneof![Just(POut::Inherit), Just(POut::Pipe), Just(POut::File)],
         prop_oneof![Just(PErr::Inherit), Just(PErr::ToFile)],
@@ -444,7 +457,7 @@ pub fn case_strategy() -> impl Strategy<Value = PipeCase> {
         len,
         any::<u8>(),
     )
-        .prop_map(|(stages, splits, use_iter, config_on_operands, stdin, stdout, stderr, term, data_len, data_seed)| {
+        .prop_map(|(stages, splits, use_iter, (config_on_operands, stdout_on_left), stdin, stdout, stderr, term, data_len, data_seed)| {
             // make the stream kinds fit the terminator (construction)
             let (stdin, stdout) = match term {
                 PTerm::Join => (if matches!(stdin, PIn::Pipe | PIn::Data) { PIn::File } else { stdin }, if stdout == POut::Pipe { POut::File } else { stdout }),
@@ -453,7 +466,7 @@ pub fn case_strategy() -> impl Strategy<Value = PipeCase> {
                 PTerm::StreamStdin => (PIn::Pipe, if stdout == POut::Pipe { POut::File } else { stdout }),
                 PTerm::StreamStdout => (if matches!(stdin, PIn::Pipe | PIn::Data) { PIn::File } else { stdin }, POut::Pipe),
             };
-            PipeCase { stages, splits, use_iter, config_on_operands, stdin, stdout, stderr, term, data_len, data_seed }
+            PipeCase { stages, splits, use_iter, config_on_operands, stdout_on_left, stdin, stdout, stderr, term, data_len, data_seed }
         })
 }
 
